@@ -231,9 +231,11 @@ package proxy
 //@   callpre NewNamespaceNameTranslator: @ns_direction: $reqMap == c.nsTranslations.AsMap() && $respMap == c.nsTranslations.Inverse().AsMap()
 //@   callpre NewSearchAttributeTranslator: @sa_direction: $reqMap == c.saTranslations.FlattenMaps() && $respMap == c.saTranslations.Inverse().FlattenMaps()
 //@   callpre ChainUnaryInterceptor: @acl_last: c.aclPolicy != nil ==> len($interceptors) >= 1 &&
-//@        exists a *interceptor.AccessControlInterceptor :: { a.Intercept } a != nil && $interceptors[len($interceptors) - 1] == a.Intercept && fromPolicy(a, c.aclPolicy)
+//@        (let a = methodReceiver($interceptors[len($interceptors) - 1], "*interceptor.AccessControlInterceptor", "Intercept") in
+//@           a != nil && $interceptors[len($interceptors) - 1] == a.Intercept && fromPolicy(a, c.aclPolicy))
 //@   callpre ChainStreamInterceptor: @acl_last: c.aclPolicy != nil ==> len($interceptors) >= 1 &&
-//@        exists a *interceptor.AccessControlInterceptor :: { a.StreamIntercept } a != nil && $interceptors[len($interceptors) - 1] == a.StreamIntercept && fromPolicy(a, c.aclPolicy)
+//@        (let a = methodReceiver($interceptors[len($interceptors) - 1], "*interceptor.AccessControlInterceptor", "StreamIntercept") in
+//@           a != nil && $interceptors[len($interceptors) - 1] == a.StreamIntercept && fromPolicy(a, c.aclPolicy))
 //@   callpre GetServerTLSConfig: @tls_builder: $serverConfig == tlsConfig
 
 //@ extern quiet NewReplicationStreamObserver
